@@ -742,6 +742,37 @@ def case(arg):
                     if where == "A" and rel in tp and frag.lower() == f"boundprocedure-{bn}":
                         viol.append({"kf": {"kind": "overridden_external_binding_listed_as_inherited"}, "w": {**w0, "page": page, "url": url, "binding": bn, "b_files": B["files"]}})
                         break
+        # ---- project-wide graphs (list pages): an entity of A that B uses and B's own entity of the same name and kind are two nodes, each
+        #      leading to its own page
+        if graph:
+            for r in B["refs"]:
+                if r["via"] not in ("call", "extends", "component_type", "variable_type") or r["target"].proj != "A" or not r["target"].tracer:
+                    continue
+                tgt = r["target"]
+                own = [e2 for e2 in B["ents"] if e2.tracer and e2.name.lower() == tgt.name.lower() and e2.kind == tgt.kind]
+                lp = os.path.join("lists", "procedures.html" if tgt.kind in ("subroutine", "function") else "types.html")
+                if not own or lp not in b_pages or tgt.kind not in ("subroutine", "function", "type"):
+                    continue
+                tp_a, tp_b = pages_of(a_pages, getattr(tgt, "alias_of", tgt)), [p for e2 in own for p in pages_of(b_pages, e2)]
+                got_a = got_b = other_a = False
+                named = []
+                tp_a_other = [p for e2 in A["ents"] if e2.tracer and e2 is not getattr(tgt, "alias_of", tgt) and e2.name.lower() == tgt.name.lower() and e2.kind == tgt.kind for p in pages_of(a_pages, e2)]
+                for text, url in b_pages[lp]["links"]:
+                    where, rel, frag = resolve(url, lp, b_out, a_out, remote_prefix)
+                    if where == "A" and rel in tp_a:
+                        got_a = True
+                    if where == "A" and rel in tp_a_other and rel not in tp_a:
+                        other_a = True
+                    if where == "B" and rel in tp_b:
+                        got_b = True
+                    if text.strip().lower() == tgt.name.lower():
+                        named.append(url)
+                n_refs += 1
+                # (only when the page draws that graph: both names are then found as link texts of nodes or table rows)
+                if tp_a and tp_b and len(named) >= 2 and not (got_a and got_b):
+                    viol.append({"kf": {"kind": "same_named_own_and_external_entity_share_a_graph_node", "entity_kind": tgt.kind, "missing": "external" if not got_a else "own",
+                                        "node_leads_to_another_external_entity_of_that_name": other_a and not got_a},
+                                 "w": {**w0, "page": lp, "name": tgt.name, "links_with_that_name": named[:6], "a_pages": tp_a, "b_pages": tp_b, "b_files": B["files"]}})
         # ---- precedence: pages of A entities whose names B defines are never linked
         for e in B["clashes"]:
             if not e.tracer or hasattr(e, "alias_of"):
